@@ -551,3 +551,21 @@ CHECKS["C13"]["manifest_note"] = ("Reactive-level clause: proved over the task/b
     "(blocking returns iff all tasks done; each boundary streamed once, after its parent; page assembled from fragments = blocking page). The "
     "string-level splice performed by the inline client script is replayed by the harness (a model of the script), not proved. Executor behaviour "
     "(tokio LocalSet, wake order) is assumed, see trusted base.")
+
+# --- Root::reinit (RootHandle::dispose; what every server render starts with) as part of the model: Props/C04Reinit
+_reinit = [RX + n for n in ["C04_reinit_shape", "C12_reinit_live_count", "C04_reinit_handles_dead", "C04_reinit_no_alias", "C04_reinit_inv",
+                            "C04_reinit_cleanups_once", "C04_reinit_total", "reachable_gens_inv", "reachable_gens_errors",
+                            "C04_gens_old_handles_stay_dead", "C04_reinitOld_aliases", "C04_reinit_no_alias_example"]]
+CHECKS["C04"]["lean_modules"] = CHECKS["C04"]["lean_modules"] + ["SycVerif.Props.C04Reinit"]
+CHECKS["C04"]["theorems"] += _reinit
+CHECKS["C04"]["status"] += ("; Root::reinit (Props/C04Reinit): for EVERY state, a successful reinit leaves exactly one live node, the fresh root, under a key no earlier "
+    "generation used (repair D20; false for the old code: C04_reinitOld_aliases), every earlier handle is dead and stays dead in all later generations, the "
+    "invariants hold again, cleanups run exactly once (inert cleanups), and programs over any number of generations fail only with documented panics")
+CHECKS["C04"]["classes"] = CHECKS["C04"]["classes"] + ["orphan-born-in-teardown"]
+CHECKS["C12"]["lean_modules"] = CHECKS["C12"]["lean_modules"] + ["SycVerif.Props.C04Reinit"]
+CHECKS["C12"]["theorems"] += [RX + n for n in ["C12_reinit_live_count", "C04_reinit_shape", "C04_reinit_no_alias"]]
+CHECKS["C11"]["lean_modules"] = CHECKS["C11"]["lean_modules"] + ["SycVerif.Props.C04Reinit"]
+CHECKS["C11"]["theorems"] += [RX + n for n in ["reachable_gens_errors", "reachable_gens_inv"]]
+CHECKS["C12"]["manifest_note"] = CHECKS["C12"]["manifest_note"].replace("Root::reinit and the thread-local SSR root (what makes renders independent of history) are NOT modelled:",
+    "Root::reinit IS modelled since (Model/Reactive.reinit, theorems in Props/C04Reinit: one live node afterwards, fresh keys, invariants; compared with the real RootHandle::dispose by two-generation programs of the reactive engine); the thread-local SSR roots around it are not:")
+CHECKS["C10"]["classes"] = CHECKS["C10"]["classes"] + ["batch-missed-run"]
